@@ -201,3 +201,45 @@ func VerifC20BeginBlocker() {
 		rt.Assert("V2-nothing-else-moves", isReward)
 	}
 }
+
+// VerifC20ScheduleFollowsTheParamsStore: parameter changes between blocks. Governance changes the schedule by writing the
+// params store (the parameter-change proposal handler updates the subspace directly, never through the keeper): the block
+// after such a change follows the new schedule - in particular nothing moves once vesting is disabled, whatever the keeper
+// read, wrote or kept in memory before.
+func VerifC20ScheduleFollowsTheParamsStore() {
+	dl := rt.IntRange("denomLen", 1, 3)
+	denom := rt.StrN("denom", dl)
+	rt.Assume(sdk.ValidateDenom(denom) == nil)
+	p1 := types.Params{EnableVesting: true, PerBlockReward: sdk.Coins{{Denom: denom, Amount: anyInt("reward1")}}}
+	p2 := types.Params{EnableVesting: rt.Bool("enabledAfterTheChange"), PerBlockReward: sdk.Coins{{Denom: denom, Amount: anyInt("reward2")}}}
+	rt.Assume((&p1).ParamSetPairs()[1].ValidatorFn(p1.PerBlockReward) == nil && (&p2).ParamSetPairs()[1].ValidatorFn(p2.PerBlockReward) == nil)
+	ctx := rt.Ctx()
+	bank := &stubBank{}
+	sub := rt.Subspace()
+	k := keeper.NewKeeper(sub, bank, stubAccounts{}, "fee_collector")
+	k.SetParams(ctx, p1) // genesis
+	_ = k.GetParams(ctx)  // a query
+	if rt.NoPanic("V1-no-panic", func() { BeginBlocker(ctx, k) }) {
+		return
+	}
+	// the governance handler writes the store, not the keeper
+	sub.SetParamSet(ctx, &p2)
+	sendsBefore, pool := bank.sends, bank.balance(denom)
+	bank.moved = nil
+	if rt.NoPanic("V1-no-panic", func() { BeginBlocker(ctx, k) }) {
+		return
+	}
+	rt.Reach("second-block-done")
+	if !p2.EnableVesting {
+		rt.Reach("disabled-by-governance")
+		rt.Assert("V4-nothing-moves-after-vesting-was-disabled-in-the-store", bank.sends == sendsBefore)
+		return
+	}
+	movedD := sdk.ZeroInt()
+	for _, c := range bank.moved {
+		if c.Denom == denom {
+			movedD = movedD.Add(c.Amount)
+		}
+	}
+	rt.Assert("V4-the-block-after-a-change-follows-the-new-reward", movedD.Equal(minInt(p2.PerBlockReward[0].Amount, pool)))
+}
